@@ -99,6 +99,51 @@ def gen_json(rng, depth=0):
     return {gen_str(rng, 3): gen_json(rng, depth + 1) for _ in range(rng.randint(0, 3))}
 
 
+# ---- the JSON library model (Model/Json.lean) against CPython's json ---------------------------------------------------
+FTAG = "\x00\x01F"  # marks a float lexeme while it travels through Python as a string (never generated inside real strings)
+
+
+def json_text_variants(rng, v):
+    """texts that denote the value v: compact, indented, non-ASCII kept raw, random whitespace at the legal places"""
+    import json
+    r = rng.random()
+    if r < 0.3:
+        return json.dumps(v, separators=(",", ":"))
+    if r < 0.5:
+        return json.dumps(v, ensure_ascii=False, indent=rng.choice([None, 0, 1, 3]))
+    if r < 0.7:
+        return json.dumps(v, ensure_ascii=False, separators=(rng.choice([",", " , ", ",\n"]), rng.choice([":", ": ", " :\t"])))
+    t = json.dumps(v, ensure_ascii=rng.random() < 0.5)
+    return rng.choice(["", " ", "\n\t"]) + t + rng.choice(["", " ", "\r\n"])
+
+
+JSON_EDGE_TEXTS = ["01", "1.", ".5", "-", "-0", "0", "-0.0", "1e5", "1E+5", "1e-05", "1.0e1", "[1,]", '{"a":1,}', "[,1]", "{}", "[]",
+                   '{"a":1,"b":2,"a":3}', '"\\u00e9"', '"\\u00E9\\/"', '"\\ud83d\\ude00"', '"\\x"', '"a\tb"', '"\\u12"', "nul",
+                   "true false", "[1 2]", '{"a" 1}', '{1:2}', "[[[[]]]]", '{"":{"":{}}}', ' [ 1 , 2 ] ', '"\u007f"', '"\u00e9"',
+                   '"\U0001F600"', "1e400", "123456789012345678901234567890", "-1.5E-7", "[1.0,2.50,3e0]", "", " ", '"', '"abc',
+                   "[", "{", '{"a":', "tru", "truee", "null,", "0x10", "+1", "1e", "1e+", "--1", "0.0.0", '"\\"', '"\\\\"']
+
+
+def py_json_canonical(text):
+    """what CPython's json makes of a text, as the compact dump with every float kept as the lexeme it had in the text;
+    None when json.loads rejects the text or the result is outside the modelled domain (NaN/Infinity literals, lone
+    surrogates)"""
+    import json
+    import re
+
+    def no_const(s):
+        raise ValueError("constant " + s)
+
+    try:
+        obj = json.loads(text, parse_float=lambda s: FTAG + s, parse_constant=no_const)
+        dump = json.dumps(obj, separators=(",", ":"))
+    except (ValueError, RecursionError):
+        return None
+    if re.search(r"\\ud[89ab][0-9a-f]{2}(?!\\ud[c-f][0-9a-f]{2})", dump) or re.search(r"(?<!\\ud[89ab][0-9a-f]{2})\\ud[c-f][0-9a-f]{2}", dump):
+        return None  # a lone surrogate: not a Unicode scalar value, outside the model's `Char`
+    return re.sub(r'"\\u0000\\u0001F([-+0-9.eE]+)"', r"\1", dump)
+
+
 def gen_float_finite(rng):
     x = gen_float(rng)
     return x if math.isfinite(x) else 2.5
@@ -116,12 +161,17 @@ class Prop(SeqProp):
             "classes sharing the class-level buffer; typed records (int, float incl. 1e-300/-0.0/inf, str); JSON records "
             "(strings incl. raw line breaks, big ints, finite floats, bools, None, nested lists/dicts); record files edited, saved "
             "and reopened in both flavours; record classes derived from concrete record classes (fresh classes per case, both "
-            "orders of first use); non-trivial = a row with a special character or a typed/json/file round trip")
+            "orders of first use); the JSON model: texts denoting random values (compact, indented, raw non-ASCII, legal "
+            "whitespace) encoded by the model vs json.dumps resp. JsonRecord.save for record-shaped values, and the model's parser vs "
+            "json.loads on valid texts, texts with one character damaged and 57 edge cases; non-trivial = a row with a special "
+            "character or a typed/json/file round trip")
     trusted_base = ["Lean 4.33.0 kernel", "axioms: propext, Classical.choice, Quot.sound (audited per theorem)",
                     "hand-written model Model/Records.lean (csv QUOTE_MINIMAL writer, csv reader state machine, StringIO) tied to "
                     "files.py and to the csv module by this correspondence run",
-                    "assumed library behaviour: json.loads(json.dumps(v)) == v on the stated domain and dumps emits no raw line "
-                    "break; int(str(i)) == i; float(repr(x)) == x for non-NaN floats (all checked by the run, not proved)"]
+                    "hand-written model Model/Json.lean of json.dumps(separators=(',',':')) / json.loads (round trip and "
+                    "single-line proved in Lean) tied to CPython's json module and to JsonRecord.save by this run (ops jenc / jdec)",
+                    "assumed library behaviour: int(str(i)) == i; float(repr(x)) == x for non-NaN floats; a float travels through "
+                    "JSON as its repr (checked by the run, not proved)"]
     assumptions = ["CSV/TSV string fields contain no \\r or \\n", "floats are not NaN (JSON: finite)"]
     scratch = None
 
@@ -162,8 +212,28 @@ class Prop(SeqProp):
                     ops.append(f"parse {d} {e(row + rng.choice(['', chr(13), chr(13) + chr(10)]))}")
                 elif r < 0.75:
                     ops.append(f"typed {rng.randrange(10 ** 9)}")
-                elif r < 0.9:
+                elif r < 0.8:
                     ops.append(f"json {rng.randrange(10 ** 9)}")
+                elif r < 0.86:
+                    # the JSON model: encode . decode on a text that denotes a random value; every second value has the shape of
+                    # a JsonRecord of the harness (fields a, b, c [, d]) — then the real `save()` is what is compared
+                    v = gen_json(rng)
+                    if rng.random() < 0.5:
+                        v = {k: gen_json(rng, 1) for k in (["a", "b", "c"] + (["d"] if rng.random() < 0.4 else []))}
+                    ops.append("jenc " + e(json_text_variants(rng, v)))
+                elif r < 0.92:
+                    # the JSON library model as a parser: valid texts, texts with one character damaged, edge cases
+                    q = rng.random()
+                    if q < 0.4:
+                        t = json_text_variants(rng, gen_json(rng))
+                    elif q < 0.7:
+                        t = json_text_variants(rng, gen_json(rng))
+                        if t:
+                            k = rng.randrange(len(t))
+                            t = t[:k] + rng.choice(["", ",", "]", "}", '"', "\\", "0", "e", " ", "-", ".", "\n", "a"]) + t[k + rng.choice([0, 1]):]
+                    else:
+                        t = rng.choice(JSON_EDGE_TEXTS)
+                    ops.append("jdec " + e(t))
                 else:
                     ops.append(f"recfile {rng.randrange(10 ** 9)}")
             yield Case(ops, {})
@@ -210,6 +280,26 @@ class Prop(SeqProp):
                     out.append(self.typed(random.Random(int(w[1]))))
                 elif w[0] == "json":
                     out.append(self.json_rt(random.Random(int(w[1]))))
+                elif w[0] == "jenc":
+                    import json
+                    t = dec_str(w[1])
+                    c = py_json_canonical(t)
+                    if c is None:
+                        out.append("err")
+                    else:
+                        # floats: Python re-emits repr(float(lexeme)); texts for jenc come from dumps, so lexeme == repr already
+                        v = json.loads(t)
+                        JC = cl["J"] if isinstance(v, dict) and list(v) == ["a", "b", "c"] else \
+                            cl["JD"] if isinstance(v, dict) and list(v) == ["a", "b", "c", "d"] else None
+                        if JC is None:
+                            out.append("ret " + enc_str(json.dumps(v, separators=(",", ":"))))
+                        else:
+                            rec = JC(**v)
+                            saved = rec.save()
+                            out.append("ret " + enc_str(saved) + ("" if JC.load(saved) == rec else " load-mismatch"))
+                elif w[0] == "jdec":
+                    c = py_json_canonical(dec_str(w[1]))
+                    out.append("err" if c is None else "ret " + enc_str(c))
                 elif w[0] == "recfile":
                     out.append(self.recfile(random.Random(int(w[1]))))
                 else:
@@ -308,6 +398,15 @@ class Prop(SeqProp):
         return "ok"
 
     # ---- oracle ------------------------------------------------------------------------------------------------------------
+    def run_model(self, cases):
+        res = SeqProp.run_model(self, cases)
+        for c, out in zip(cases, res):
+            for i, op in enumerate(c.ops):
+                if op.startswith("jdec ") and out[i].startswith("ret "):
+                    # the model lists the float lexemes after the dump (they are already inside it as written)
+                    out[i] = out[i].split(" floats")[0]
+        return res
+
     def oracle(self, case, impl_out):
         import csv, io
         for i, (op, line) in enumerate(zip(case.ops, impl_out)):
@@ -331,6 +430,20 @@ class Prop(SeqProp):
             elif w[0] == "parse":
                 if "load-mismatch" in line:
                     return f"op {i} `{op}`: load disagrees with the csv reader"
+            elif w[0] == "jenc":
+                # a JsonRecord saved by the real code (record-shaped values): one line, and it loads back to the same record
+                if "load-mismatch" in line:
+                    return f"op {i}: load(save(r)) != r for the JSON record {dec_str(w[1])[:200]!r}"
+                if line.startswith("ret "):
+                    import json
+                    saved = dec_str(line[4:].split(" ")[0])
+                    if "\n" in saved or "\r" in saved:
+                        return f"op {i}: the saved JSON text is not a single line: {saved[:200]!r}"
+                    try:
+                        if json.loads(saved) != json.loads(dec_str(w[1])):
+                            return f"op {i}: saved JSON text {saved[:200]!r} does not denote the value it was made from"
+                    except ValueError:
+                        return f"op {i}: saved JSON text {saved[:200]!r} is not valid JSON"
         return None
 
     def key(self, case, impl_out):
